@@ -448,7 +448,10 @@ type verifOptInner struct {
 	N int32 `json:"n"`
 }
 
+type verifOptEmpty struct{}
+
 type verifOptOuter struct {
+	E    verifOptEmpty            `json:"e"` // a struct without fields is still an object
 	A    verifOptInner            `json:"a"`
 	P    *verifOptInner           `json:"p,omitempty"`
 	L    []verifOptInner          `json:"l"`
@@ -501,8 +504,8 @@ func verifH_C18_options() {
 	}
 	n := verifNondetInt32("n")
 	inner := map[string]any{"n": float64(n)}
-	enc := map[string]any{"a": inner, "p": inner, "l": []any{inner}, "m": map[string]any{"k": inner}, "s": "x", "Open": "o",
-		"self": map[string]any{"a": inner, "l": []any{}, "m": map[string]any{}, "s": "y", "Open": ""}}
+	enc := map[string]any{"e": map[string]any{}, "a": inner, "p": inner, "l": []any{inner}, "m": map[string]any{"k": inner}, "s": "x", "Open": "o",
+		"self": map[string]any{"e": map[string]any{}, "a": inner, "l": []any{}, "m": map[string]any{}, "s": "y", "Open": ""}}
 	if root.Value != nil {
 		verifAssert(root.Value.VisitJSON(enc) == nil, "C18 options: the generated schema accepts the encoding of a value")
 	}
